@@ -409,7 +409,7 @@ def gen_constraints(rng, tier, ops):
             for slen in (0, 3, 5, lim, lim + 1, 1 << 40):
                 ops.append(mk(fn, D, 4, None, slen, same=True, tag="same+slen"))
                 for sbos in (2, 8):
-                    if slen == 5 and fn not in MCMP:
+                    if slen in (5, lim) and fn not in MCMP:
                         continue     # slen > dmax has its own documented answer in the searches; keep one violation per case
                     ops.append(mk(fn, D, 4, None, slen, same=True, sbos=sbos, tag="same+sbos"))
             ops.append(mk(fn, D8, 9, None, 2, same=True, bos=8, tag="same+bos"))
